@@ -328,12 +328,88 @@ def run_task(task, tr):
     elif kind_of_task == 'merge':
         _, n, topology, kind = task
         merge_task(tr, n, topology, kind)
+    elif kind_of_task == 'kbl':
+        _, n, topology, topo2, what = task
+        kbl_task(tr, n, topology, topo2, what)
     else:
         _, n, topology, topo2, what = task
         sp1 = spec(n, topology, 'unrooted', subst='JC69')
         sp2 = spec(n, topo2, 'unrooted', subst='JC69')
         label = f'JC69 unrooted {newick(topology)} -> {newick(topo2)} ({what})'
         run_pair(tr, label, n, 'unrooted', 'JC69', sp1, sp2, sig=f'reroot:JC69:{what}')
+
+
+def kbl_task(tr, n, topology, topo2, what):
+    """keep_branch_lengths: branch lengths are read from the Newick string; the same unrooted tree written with a different
+    root position / child order (root branch split 40:60) must give the same JC69 likelihood"""
+    from symtorch.axioms import const_exp_axioms
+    from torchtree.evolution.tree_model import UnRootedTreeModel
+
+    tr.fn(UnRootedTreeModel.from_json)
+    allt = frozenset(f't{i}' for i in range(n))
+
+    def blen(leafset):
+        a = frozenset(leafset)
+        key = a if 't0' not in a else allt - a
+        return (7 + 4 * sum(int(x[1:]) + 1 for x in key) + 3 * len(key)) / 100.0
+
+    def leafset(t):
+        return frozenset(f't{x}' for x in cm.leaves(t))
+
+    def nw(t, root=True):
+        if not isinstance(t, tuple):
+            return f't{t}'
+        parts = []
+        for k, c in enumerate(t):
+            L = blen(leafset(c))
+            if root:
+                L = round(L * (0.4 if k == 0 else 0.6), 6)
+            parts.append(f'{nw(c, False)}:{L}')
+        return '(' + ','.join(parts) + ')'
+
+    def mk(t):
+        sp = spec(n, t, 'unrooted', subst='JC69')
+        sp['tree_model']['newick'] = nw(t) + ';'
+        sp['tree_model']['keep_branch_lengths'] = True
+        sp['site_model'] = {'id': 'site', 'type': 'ConstantSiteModel'}
+        return sp
+
+    label = f'keep_branch_lengths JC69 {nw(topology)} -> {nw(topo2)} ({what})'
+    with tracing() as t:
+        d = t.dag
+        try:
+            l1, _ = cm.build(mk(topology))
+            l2, _ = cm.build(mk(topo2))
+            # the engine reads the constant branch lengths as exact rationals: wrap them as constant SymTensors
+            for l in (l1, l2):
+                bl = l.tree_model._branch_lengths
+                bl.tensor = from_ids(torch.tensor([d.const(round(float(v), 6)) for v in bl.tensor.tolist()], dtype=torch.int64))
+            v1, v2 = l1(), l2()
+        except Exception as e:
+            tr.violation('keep_branch_lengths:raises', f'{label}: raised {type(e).__name__}: {e}', {'label': label})
+            return
+        tr.witness_runs += 2
+        tr.regions += 1
+        a, b = int(v1._ids.reshape(-1)[0]), int(v2._ids.reshape(-1)[0])
+        goal = d.eq(a, b)
+        hyps = const_exp_axioms(d, [goal])
+
+        def replay(vals):
+            import torchtree.evolution.tree_likelihood  # noqa
+
+            m1, _ = cm.build(mk(topology))
+            m2, _ = cm.build(mk(topo2))
+            for m in (m1, m2):
+                m.tree_model._branch_lengths.tensor = m.tree_model._branch_lengths.tensor.to(torch.float64)
+            x, y = float(m1()), float(m2())
+            if abs(x - y) > 1e-9 * max(1.0, abs(x)):
+                return True, f'log-likelihood {x} vs {y} for the same unrooted tree with branch lengths kept from the Newick strings'
+            return False, 'agree'
+
+        tr.sample({'case': label})
+        cm.discharge(tr, d, hyps, [('same unrooted tree with lengths kept from the Newick string: log-likelihoods are equal', goal, [],
+                                    f'keep_branch_lengths:{what.split(" ")[0]}')], label, replay=replay, varnodes={}, defined=False,
+                     timeout=60, parallel=True)
 
 
 def merge_task(tr, n, topology, kind):
@@ -420,6 +496,11 @@ def tasks_for(tier):
     for t2, what in reroots(topo, 3):
         ts.append(('reroot', 3, topo, t2, what))
     ts.append(('reroot', 3, topo, (topo[1], topo[0]), 'children of the root swapped'))
+    for base in ([cm.caterpillar(4)] if tier == 'quick' else [cm.caterpillar(4), cm.balanced(4), cm.caterpillar(3)]):
+        nn = len(cm.leaves(base))
+        for t2, what in reroots(base, nn):
+            ts.append(('kbl', nn, base, t2, what))
+        ts.append(('kbl', nn, base, (base[1], base[0]), 'swap of the root children'))
     if tier == 'thorough':
         topo = cm.balanced(4)
         for t2, what in reroots(topo, 4):
